@@ -37,7 +37,8 @@ RULE = ("world = seeded package: control fields, any subset of the 5 maintainer 
         "scripts / md5sums / has_file / in / get_content / [] / name listing under the three "
         "path spellings and chunked reads of open member streams; an evaluation is one run; "
         "distinct = distinct (actor, op) sequence hash; non-trivial = both parts were read and "
-        "at least one stream was read in more than one chunk, or the package was defective")
+        "at least one stream was read in more than one chunk, or the package was defective"
+        '; later additions: open by file name, an earlier package at the same path with a live reader, a second (well-formed or defective) package opened mid-run, payloads over 8 KiB, the package object dropped before its streams are drained, clients editing returned objects, abandoned iterations, an empty second candidate for a part, control values with rare line-break characters, queries for names that are almost a packed name')
 REAL = ["debian.debfile (DebFile, DebPart, DebControl, DebData)", "debian.arfile",
         "debian.deb822.Deb822 (for debcontrol())", "tarfile, gzip, bz2, lzma (stdlib)"]
 STUB = ["the caller-supplied file object: simkit.simfile.SimFile (a journaling BytesIO)"]
